@@ -254,3 +254,128 @@ Proof.
       * split; [discriminate|]. intros [H|H]; [lia | contradiction].
     + split; [discriminate|]. split; [right; exact E | reflexivity].
 Qed.
+
+(* ---- transposing twice gives the residues back ---------------------------------------------------------- *)
+Lemma nth_map_lt {A B} (f : A -> B) (l : list A) k (d : A) (d' : B) : (k < length l)%nat -> nth k (map f l) d' = f (nth k l d).
+Proof.
+  revert k; induction l as [|x t IH]; intros k H; [cbn in H; lia|]. destruct k; [reflexivity|].
+  cbn [map nth]. apply IH. cbn in H. lia.
+Qed.
+
+Lemma as_nth_seq {A} (l : list A) (d : A) : map (fun k => nth k l d) (seq 0 (length l)) = l.
+Proof.
+  induction l as [|x t IH]; [reflexivity|]. cbn [length seq map nth]. f_equal.
+  rewrite <- seq_shift, map_map. exact IH.
+Qed.
+
+Theorem transpose_twice rs : rectangular rs -> (0 < alen rs)%Z -> map snd (transpose (transpose rs)) = map snd rs.
+Proof.
+  intros Hrect HL. destruct rs as [|r0 t] eqn:Ers; [cbn in HL; lia|]. rewrite <- Ers in *.
+  assert (HLn : alen rs = Z.of_nat (length (snd r0))) by (rewrite Ers; reflexivity).
+  set (L := length (snd r0)) in *.
+  assert (Hw : forall r, In r rs -> length (snd r) = L).
+  { intros r Hr. apply (Hrect r r0 Hr). rewrite Ers. left. reflexivity. }
+  unfold transpose at 1.
+  (* the transposed alignment has one row per column and its rows have one residue per original row *)
+  assert (Ht : transpose rs = map (fun i => (Dec.dec_of_nat i, column rs i)) (seq 0 L)).
+  { unfold transpose. rewrite HLn, Nat2Z.id. reflexivity. }
+  assert (HL0 : (0 < L)%nat) by lia.
+  assert (Hal : alen (transpose rs) = Z.of_nat (length rs)).
+  { rewrite Ht. destruct L as [|L']; [lia|]. cbn [seq map alen snd]. unfold column. rewrite map_length. reflexivity. }
+  rewrite Hal, Nat2Z.id, map_map. cbn [snd].
+  transitivity (map (fun k => snd (nth k rs ([], []))) (seq 0 (length rs))).
+  - apply map_ext_in. intros k Hk. apply in_seq in Hk.
+    unfold column at 1. rewrite Ht, map_map. cbn [snd].
+    transitivity (map (fun i => nth i (snd (nth k rs ([], []))) x2d) (seq 0 L)).
+    + apply map_ext_in. intros i Hi. unfold column. rewrite (nth_map_lt _ rs k ([], []) x2d) by lia. reflexivity.
+    + rewrite <- (Hw (nth k rs ([], []))) by (apply nth_In; lia). apply as_nth_seq.
+  - rewrite <- (map_map (fun k => nth k rs ([], [])) snd). rewrite as_nth_seq. reflexivity.
+Qed.
+
+(* ---- cutting an alignment in two and concatenating the parts gives it back --------------------------------- *)
+Lemma get_seq_none_notin n (rs : rows) : ~ In n (names rs) -> get_seq n rs = None.
+Proof.
+  unfold get_seq, names. induction rs as [|[m s] t IH]; intros H; [reflexivity|]. cbn [lassoc].
+  destruct (bytes_eqb n m) eqn:E.
+  - apply bytes_eqb_eq in E. subst. exfalso. apply H. left. reflexivity.
+  - apply IH. intros Hin. apply H. right. exact Hin.
+Qed.
+
+Lemma has_name_mid n s (done ta : rows) : has_name n (done ++ (n, s) :: ta) = true.
+Proof.
+  unfold has_name, get_seq. induction done as [|[m x] d IH]; cbn [app lassoc].
+  - rewrite bytes_eqb_refl. reflexivity.
+  - destruct (bytes_eqb n m); [reflexivity | exact IH].
+Qed.
+
+Lemma append_to_mid n s add (done ta : rows) : ~ In n (names done) ->
+  append_to n add (done ++ (n, s) :: ta) = done ++ (n, s ++ add) :: ta.
+Proof.
+  induction done as [|[m x] d IH]; intros H; cbn [app append_to].
+  - rewrite bytes_eqb_refl. reflexivity.
+  - destruct (bytes_eqb m n) eqn:E.
+    + apply bytes_eqb_eq in E. subst. exfalso. apply H. left. reflexivity.
+    + f_equal. apply IH. intros Hin. apply H. right. exact Hin.
+Qed.
+
+Fixpoint zip_append (a c : rows) : rows :=
+  match a, c with
+  | (n, s) :: ta, (_, s') :: tc => (n, s ++ s') :: zip_append ta tc
+  | _, _ => a
+  end.
+
+Lemma concat_step2_zip al : forall (c todo done : rows),
+  names todo = names c -> NoDup (names (done ++ todo)) ->
+  concat_step2 (done ++ todo) al c = done ++ zip_append todo c.
+Proof.
+  induction c as [|[n s'] tc IH]; intros todo done Hn Hnd.
+  - destruct todo; [|discriminate Hn]. reflexivity.
+  - destruct todo as [|[m s] ta]; [discriminate Hn|]. cbn [names map fst] in Hn. injection Hn as Hm Hn. subst m.
+    cbn [concat_step2]. rewrite has_name_mid.
+    assert (Hnot : ~ In n (names done)).
+    { unfold names in *. rewrite map_app in Hnd. cbn [map fst] in Hnd. apply NoDup_remove_2 in Hnd.
+      intros Hin. apply Hnd. apply in_or_app. left. exact Hin. }
+    rewrite (append_to_mid n s s' done ta Hnot).
+    replace (done ++ (n, s ++ s') :: ta) with ((done ++ [(n, s ++ s')]) ++ ta) by (rewrite <- app_assoc; reflexivity).
+    rewrite IH.
+    + rewrite <- app_assoc. reflexivity.
+    + exact Hn.
+    + unfold names in *. rewrite <- app_assoc. cbn [app]. rewrite !map_app in *. cbn [map fst] in *. exact Hnd.
+Qed.
+
+Theorem prefix_suffix_concat alpha rs k p q :
+  rectangular rs -> NoDup (names rs) -> (0 <= k <= alen rs)%Z ->
+  sub_align rs 0 k = Some p -> sub_align rs k (alen rs - k) = Some q ->
+  concat alpha alpha p q = (rs, true).
+Proof.
+  intros Hrect Hnd Hk Hp Hq. unfold sub_align in Hp, Hq.
+  destruct (window_ok (alen rs) 0 k); [|discriminate]. destruct (window_ok (alen rs) k (alen rs - k)); [|discriminate].
+  injection Hp as <-. injection Hq as <-. cbn [skipn Z.to_nat].
+  unfold concat. rewrite Z.eqb_refl. cbn [negb].
+  set (p := map (fun r : list byte * list byte => (fst r, firstn (Z.to_nat k) (snd r))) rs).
+  set (q := map (fun r : list byte * list byte => (fst r, firstn (Z.to_nat (alen rs - k)) (skipn (Z.to_nat k) (snd r)))) rs).
+  assert (Hnp : names p = names rs) by (unfold p, names; rewrite map_map; reflexivity).
+  assert (Hnq : names q = names rs) by (unfold q, names; rewrite map_map; reflexivity).
+  (* every row of p has its name in q: nothing is padded *)
+  assert (Ha1 : map (fun r : list byte * list byte => if has_name (fst r) q then r else (fst r, snd r ++ gaps (Z.max 0 (alen q)))) p = p).
+  { rewrite <- (map_id p) at 2. apply map_ext_in. intros r Hr.
+    assert (Hin : In (fst r) (names q)) by (rewrite Hnq, <- Hnp; apply in_map; exact Hr).
+    unfold has_name. destruct (get_seq (fst r) q) eqn:E; [reflexivity|].
+    exfalso. unfold get_seq in E. clear -E Hin. unfold names in Hin. induction q as [|[m s] t IH]; [contradiction|].
+    cbn [lassoc] in E. destruct (bytes_eqb (fst r) m) eqn:Eb; [discriminate|].
+    destruct Hin as [Hin|Hin]; [cbn in Hin; subst; rewrite bytes_eqb_refl in Eb; discriminate | exact (IH Hin E)]. }
+  rewrite Ha1.
+  pose proof (concat_step2_zip (Z.max 0 (alen p)) q p []) as Hzip. cbn [app] in Hzip.
+  rewrite Hzip; [| rewrite Hnp, Hnq; reflexivity | rewrite Hnp; exact Hnd].
+  assert (Hz : zip_append p q = rs).
+  { unfold p, q. clear -Hrect Hk. assert (Hw : forall r, In r rs -> Z.of_nat (length (snd r)) = alen rs).
+    { destruct rs as [|r0 t]; [intros r []|]. intros r Hr. cbn [alen]. f_equal. apply (Hrect r r0 Hr). left. reflexivity. }
+    clear Hrect. revert Hk Hw. generalize (alen rs) as L. intros L Hk' Hw.
+    induction rs as [|[n s] t IH]; [reflexivity|]. cbn [map zip_append fst snd].
+    assert (Hs : Z.of_nat (length s) = L) by (apply (Hw (n, s)); left; reflexivity).
+    rewrite (firstn_all2 (skipn (Z.to_nat k) s)) by (rewrite skipn_length; lia).
+    rewrite firstn_skipn. f_equal. apply IH. intros r Hr. apply Hw. right. exact Hr. }
+  rewrite Hz. f_equal.
+  destruct rs as [|r0 t]; [reflexivity|]. cbn [rectangularb]. apply forallb_forall. intros r Hr.
+  apply Nat.eqb_eq. apply Hrect; [right; exact Hr | left; reflexivity].
+Qed.
